@@ -1,12 +1,12 @@
 package main
 
 import (
-	"strings"
-	"hash/crc32"
 	"flag"
 	"fmt"
+	"hash/crc32"
 	"os"
 	"sort"
+	"strings"
 	"sync"
 
 	"golang.org/x/tools/go/ssa"
